@@ -75,3 +75,287 @@ Proof.
           (text_eqb_sym (snd T_br) l), (text_eqb_sym (snd T_set) l), (text_eqb_sym (snd T_region) l).
   rewrite E1, E2, E3, E5, E6, E7. reflexivity.
 Qed.
+
+(* ---- rational helpers ---------------------------------------------------------------------------- *)
+Lemma Qmax_plus_r a c d : (Qmax (c + a) (d + a) == Qmax c d + a)%Q.
+Proof. destruct (Q.max_spec c d) as [[H1 H2]|[H1 H2]]; rewrite H2; [apply Q.max_r; lra | apply Q.max_l; lra]. Qed.
+
+Lemma oq_rel_trans a b c : oq_rel a b -> oq_rel b c -> oq_rel a c.
+Proof. destruct a, b, c; simpl; try tauto. intros H1 H2. rewrite H1. exact H2. Qed.
+Lemma oq_rel_sym a b : oq_rel a b -> oq_rel b a.
+Proof. destruct a, b; simpl; try tauto. intro H. symmetry. exact H. Qed.
+
+Lemma oadd_compat a b x y : (a == b)%Q -> oq_rel x y -> oq_rel (oadd a x) (oadd b y).
+Proof. destruct x, y; simpl; try tauto. intros H1 H2. rewrite H1, H2. reflexivity. Qed.
+
+Lemma end_of_compat s1 s2 b1 b2 d e i1 i2 :
+  (s1 == s2)%Q -> (b1 == b2)%Q -> oq_rel i1 i2 -> oq_rel (end_of s1 b1 d e i1) (end_of s2 b2 d e i2).
+Proof.
+  intros Hs Hb Hi. unfold end_of. destruct d, e; simpl.
+  - rewrite Hs, Hb. reflexivity.
+  - rewrite Hb. reflexivity.
+  - rewrite Hs. reflexivity.
+  - apply oadd_compat; assumption.
+Qed.
+
+(* the interval depends on the syncbase only up to equality of rationals *)
+Lemma interval_sync tv p s1 s2 x : (s1 == s2)%Q ->
+  (fst (interval tv p s1 x) == fst (interval tv p s2 x))%Q /\
+  oq_rel (snd (interval tv p s1 x)) (snd (interval tv p s2 x)).
+Proof.
+  intro H. destruct x as [tag attrs txt tail cs]. cbn [interval fst snd]. split.
+  - rewrite H. reflexivity.
+  - apply end_of_compat; [assumption| rewrite H; reflexivity | apply oq_rel_refl].
+Qed.
+
+(* ---- outcomes of process and the timed vocabulary ----------------------------------------------- *)
+Ltac break_match :=
+  repeat match goal with
+         | |- context [match ?e with _ => _ end] => destruct e eqn:?
+         end.
+
+Lemma process_outcome ev pc x :
+  match process ev pc x with
+  | PSkip => timed x = false
+  | POk _ => timed x = true
+  | PErr _ => True
+  end.
+Proof.
+  destruct x as [tag attrs txt tail cs]. unfold timed. cbn [x_tag x_attrs process].
+  rewrite classify_s_kind. destruct (classify tag attrs) as [k|]; [|reflexivity].
+  match goal with |- context [?t = false] => set (T := t) end.
+  destruct (ekind_eqb k KRegion && match get_attr attrs A_id with None => true | Some _ => false end) eqn:E.
+  - apply andb_true_iff in E as [E1 E2]. unfold T. destruct k; try discriminate.
+    destruct (get_attr attrs A_id); [discriminate|reflexivity].
+  - assert (HT : T = true).
+    { unfold T. destruct k; try reflexivity. destruct (get_attr attrs A_id); [reflexivity|discriminate]. }
+    clearbody T. subst T.
+    match goal with |- match ?e with _ => _ end => destruct e eqn:Hbig end; auto.
+    revert Hbig. break_match; discriminate.
+Qed.
+
+Lemma process_ok_timed ev pc x r : process ev pc x = POk r -> timed x = true.
+Proof. intro H. pose proof (process_outcome ev pc x) as P. rewrite H in P. exact P. Qed.
+Lemma process_skip_timed ev pc x : process ev pc x = PSkip -> timed x = false.
+Proof. intro H. pose proof (process_outcome ev pc x) as P. rewrite H in P. exact P. Qed.
+
+(* a child of a seq container whose implicit end is unknown is never read successfully *)
+Lemma process_no_syncbase ev pc x r :
+  implicit_begin pc = None -> process ev pc x <> POk r.
+Proof.
+  intros Hi H. destruct x as [tag attrs txt tail cs]. cbn [process] in H. rewrite Hi in H.
+  revert H. break_match; discriminate.
+Qed.
+
+(* ---- the induction ------------------------------------------------------------------------------------ *)
+Lemma loop_pf_mono proc k par db pr lg l : forall iend kids anims iF kF aF pF,
+  children_loop proc k par db pr lg l iend kids anims true = LDone iF kF aF pF -> pF = true.
+Proof.
+  induction l as [|c l IH]; intros iend kids anims iF kF aF pF H; cbn [children_loop] in H.
+  - inversion H; reflexivity.
+  - revert H. break_match; intro H; try discriminate; eapply IH; exact H.
+Qed.
+
+Lemma is_style_not_timed c : is_style_elem c = true -> timed c = false.
+Proof.
+  unfold is_style_elem, timed. destruct c as [tag attrs txt tail cs]. cbn [x_tag x_attrs].
+  intro H. apply qname_eqb_eq in H. subst tag. reflexivity.
+Qed.
+
+Lemma par_dur_none iv mixed l : par_dur iv mixed l None = None.
+Proof.
+  induction l as [|c l IH]; cbn [par_dur]; [reflexivity|].
+  destruct (timed c); cbn [omax]; destruct (mixed && has_text (x_tail c)); exact IH.
+Qed.
+
+Lemma seq_dur_compat tv l : forall c1 c2, (c1 == c2)%Q ->
+  oq_rel (seq_dur (interval tv) l c1) (seq_dur (interval tv) l c2).
+Proof.
+  induction l as [|c l IH]; intros c1 c2 H; cbn [seq_dur].
+  - exact H.
+  - destruct (timed c); [|apply IH; exact H].
+    destruct (interval_sync tv true c1 c2 c H) as [_ He].
+    destruct (snd (interval tv true c1 c)), (snd (interval tv true c2 c)); simpl in He; try tauto.
+    apply IH. exact He.
+Qed.
+
+Section Main.
+  Variable ev : env.
+
+  Definition sound (x : xml) : Prop :=
+    forall pc r, process ev pc x = POk r -> r_pushfail r = false ->
+      exists sync, implicit_begin pc = Some sync /\
+        (r_des_begin r == fst (interval (tv_of ev) (negb (pc_par pc)) sync x))%Q /\
+        oq_rel (r_des_end r) (snd (interval (tv_of ev) (negb (pc_par pc)) sync x)).
+
+  Lemma loop_par k db pr lg l : Forall sound l ->
+    forall iend kids anims pf iF kF aF acc,
+      children_loop (process ev) k true db pr lg l iend kids anims pf = LDone iF kF aF false ->
+      oq_rel iend (oadd db acc) ->
+      oq_rel iF (oadd db (par_dur (interval (tv_of ev)) (k_is_mixed k) l acc)).
+  Proof.
+    induction 1 as [|c l Hc Hl IH]; intros iend kids anims pf iF kF aF acc H Hrel.
+    - cbn [children_loop] in H. inversion H; subst. exact Hrel.
+    - cbn [children_loop par_dur] in H |- *. rewrite andb_true_r in H.
+      destruct (ekind_eqb k KRegion && is_style_elem c) eqn:Est.
+      { apply andb_true_iff in Est as [Ek Es]. rewrite (is_style_not_timed c Es).
+        assert (k = KRegion) by (destruct k; try discriminate; reflexivity). subst k. cbn [k_is_mixed andb].
+        eapply IH; eassumption. }
+      destruct (process ev (mkPctx true iend db pr lg (negb (ekind_eqb k KSet))) c) as [e| |r] eqn:Ep.
+      + discriminate.
+      + rewrite (process_skip_timed _ _ _ Ep).
+        destruct (x_tail c) as [t|]; cbn [has_text].
+        * destruct (k_is_mixed k); cbn [andb].
+          -- eapply IH; [exact H|]. exact I.
+          -- eapply IH; eassumption.
+        * rewrite andb_false_r. eapply IH; eassumption.
+      + rewrite (process_ok_timed _ _ _ _ Ep).
+        assert (Hpf : pf || r_pushfail r = false).
+        { destruct (pf || r_pushfail r) eqn:E; [|reflexivity].
+          exfalso. revert H. destruct (x_tail c); [destruct (k_is_mixed k)|]; intro H; apply loop_pf_mono in H; discriminate. }
+        apply orb_false_iff in Hpf as [Hpf1 Hpf2]. rewrite Hpf1, Hpf2 in H. cbn [orb] in H.
+        destruct (Hc _ _ Ep Hpf2) as [sync [Hs [_ He]]].
+        cbn [implicit_begin pc_par] in Hs. inversion Hs; subst sync. cbn [pc_par negb] in He.
+        set (se := snd (interval (tv_of ev) false 0 c)) in *.
+        assert (Hstep : oq_rel (match iend, r_des_end r with
+                                | Some a, Some ce => Some (Qmax a (ce + db))
+                                | _, _ => None end) (oadd db (omax acc se))).
+        { destruct iend as [a|], acc as [c0|], (r_des_end r) as [ce|], se as [s|]; simpl in *; try tauto.
+          rewrite Hrel, He. rewrite (Qplus_comm db c0), Qmax_plus_r. apply Qplus_comm. }
+        destruct (x_tail c) as [t|]; cbn [has_text].
+        * destruct (k_is_mixed k); cbn [andb].
+          -- eapply IH; [exact H|]. exact I.
+          -- eapply IH; [exact H|]. exact Hstep.
+        * rewrite andb_false_r. eapply IH; [exact H|]. exact Hstep.
+  Qed.
+
+  Lemma loop_seq k db pr lg l : Forall sound l ->
+    forall iend kids anims pf iF kF aF,
+      children_loop (process ev) k false db pr lg l iend kids anims pf = LDone iF kF aF false ->
+      match iend with
+      | Some ie => forall cursor, (ie - db == cursor)%Q -> oq_rel iF (oadd db (seq_dur (interval (tv_of ev)) l cursor))
+      | None => iF = None
+      end.
+  Proof.
+    induction 1 as [|c l Hc Hl IH]; intros iend kids anims pf iF kF aF H.
+    - cbn [children_loop] in H. inversion H; subst. destruct iF as [ie|]; [|reflexivity].
+      intros cursor Hcur. cbn [seq_dur oadd oq_rel]. rewrite <- Hcur. ring.
+    - cbn [children_loop] in H. rewrite andb_false_r in H.
+      destruct (ekind_eqb k KRegion && is_style_elem c) eqn:Est.
+      { apply andb_true_iff in Est as [Ek Es]. specialize (IH _ _ _ _ _ _ _ H).
+        destruct iend as [ie|]; [|exact IH]. intros cursor Hcur. cbn [seq_dur]. rewrite (is_style_not_timed c Es). apply IH; exact Hcur. }
+      destruct (process ev (mkPctx false iend db pr lg (negb (ekind_eqb k KSet))) c) as [e| |r] eqn:Ep.
+      + discriminate.
+      + assert (H' : children_loop (process ev) k false db pr lg l iend kids anims pf = LDone iF kF aF false).
+        { destruct (x_tail c); exact H. }
+        specialize (IH _ _ _ _ _ _ _ H').
+        destruct iend as [ie|]; [|exact IH]. intros cursor Hcur. cbn [seq_dur]. rewrite (process_skip_timed _ _ _ Ep). apply IH; exact Hcur.
+      + destruct iend as [ie|].
+        2:{ exfalso. eapply process_no_syncbase; [|exact Ep]. reflexivity. }
+        assert (Hpf : pf || r_pushfail r = false).
+        { destruct (pf || r_pushfail r) eqn:E; [|reflexivity].
+          exfalso. revert H. destruct (x_tail c); intro H; apply loop_pf_mono in H; discriminate. }
+        apply orb_false_iff in Hpf as [Hpf1 Hpf2]. rewrite Hpf1, Hpf2 in H. cbn [orb] in H.
+        destruct (Hc _ _ Ep Hpf2) as [sync [Hs [_ He]]].
+        cbn [implicit_begin pc_par pc_impl_end pc_des_begin] in Hs. inversion Hs; subst sync. cbn [pc_par negb] in He.
+        assert (H' : children_loop (process ev) k false db pr lg l
+                       (match r_des_end r with Some ce => Some (ce + db)%Q | None => None end)
+                       (match r_node r with
+                        | Some n => if negb (ekind_eqb (r_kind r) KSet) &&
+                                       match r_des_end r with None => true | Some ce => negb (Qeq_bool (r_des_begin r) ce) end
+                                    then kids ++ [n] else kids
+                        | None => kids end)
+                       (match r_anim r with Some a => anims ++ [a] | None => anims end) false = LDone iF kF aF false).
+        { destruct (x_tail c); exact H. }
+        specialize (IH _ _ _ _ _ _ _ H').
+        intros cursor Hcur. cbn [seq_dur]. rewrite (process_ok_timed _ _ _ _ Ep).
+        destruct (interval_sync (tv_of ev) true (ie - db) cursor c Hcur) as [_ Hsync].
+        pose proof (oq_rel_trans _ _ _ He Hsync) as He'.
+        destruct (r_des_end r) as [ce|], (snd (interval (tv_of ev) true cursor c)) as [s|]; simpl in He'; try tauto.
+        * apply IH. rewrite <- He'. ring.
+        * subst iF. exact I.
+  Qed.
+End Main.
+
+Lemma s_is_seq_par attrs : s_is_seq attrs = negb (read_par attrs).
+Proof.
+  unfold s_is_seq, read_par. destruct (get_attr attrs A_timeContainer); [|reflexivity].
+  rewrite negb_involutive. reflexivity.
+Qed.
+
+Lemma desired_end_of ib db eend edur iF sync b idur :
+  (ib == sync)%Q -> (db == b)%Q -> oq_rel iF (oadd b idur) ->
+  oq_rel (desired_end ib db eend edur iF) (end_of sync b edur eend idur).
+Proof.
+  intros H1 H2 H3. unfold desired_end, end_of. destruct eend, edur; simpl.
+  - rewrite H1, H2. reflexivity.
+  - rewrite H1. reflexivity.
+  - rewrite H2. reflexivity.
+  - exact H3.
+Qed.
+
+Theorem interval_sound ev x : sound ev x.
+Proof.
+  induction x as [tag attrs txt tail cs IHcs] using xml_ind'.
+  intros pc r H Hpush.
+  cbn [process] in H.
+  pose proof (classify_s_kind tag attrs) as Hk.
+  destruct (classify tag attrs) as [k|]; [|discriminate].
+  destruct (ekind_eqb k KRegion && match get_attr attrs A_id with None => true | Some _ => false end) eqn:Ereg; [discriminate|].
+  assert (Hsk : s_kind tag attrs = Some k).
+  { rewrite Hk. destruct k; try reflexivity. destruct (get_attr attrs A_id); [reflexivity|discriminate]. }
+  clear Hk.
+  destruct (read_time ev (get_attr attrs A_begin)) as [ebegin|] eqn:Eb; [|discriminate].
+  destruct (read_time ev (get_attr attrs A_dur)) as [edur|] eqn:Ed; [|discriminate].
+  destruct (read_time ev (get_attr attrs A_end)) as [eend|] eqn:Ee; [|discriminate].
+  apply read_time_tv in Eb, Ed, Ee.
+  destruct (implicit_begin pc) as [ibegin|] eqn:Eib; [|discriminate].
+  exists ibegin. split; [reflexivity|].
+  set (dbegin := (ibegin + opt_or_zero ebegin)%Q) in *.
+  set (par := read_par attrs) in *.
+  set (lang := if ekind_eqb k KSet then pc_lang pc else read_lang attrs (pc_lang pc)) in *.
+  set (preserve := if ekind_eqb k KSet then pc_preserve pc else read_space attrs (pc_preserve pc)) in *.
+  set (iend0 := if k_indefinite_in_par k && pc_par pc then None else Some dbegin) in *.
+  set (iend1 := match txt with Some t => if k_is_mixed k && par then None else iend0 | None => iend0 end) in *.
+  destruct (children_loop (process ev) k par dbegin preserve lang cs iend1
+              (match txt with Some t => if k_is_mixed k && par then [anon_span k preserve lang t] else [] | None => [] end) [] false)
+    as [e|iF kF aF pF] eqn:Eloop; [discriminate|].
+  destruct (if k_has_children k then push_children k kF else ([], true)) as [pushed ok] eqn:Epush.
+  destruct ok; cbn [negb] in H.
+  2:{ inversion H; subst r. discriminate. }
+  assert (HpF : pF = false /\ r_des_begin r = dbegin /\ r_des_end r = desired_end ibegin dbegin eend edur iF).
+  { destruct (ekind_eqb k KSet); inversion H; subst r; cbn in Hpush |- *; auto. }
+  destruct HpF as [HpF [Hrb Hre]]. subst pF. rewrite Hrb, Hre. clear H Hrb Hre.
+  (* the specification side *)
+  cbn [interval fst snd]. rewrite Hsk.
+  assert (Hb : (dbegin == ibegin + match tattr (tv_of ev) attrs A_begin with Some v => v | None => 0 end)%Q).
+  { unfold dbegin, tattr. rewrite Eb. destruct (get_attr attrs A_begin) as [s|]; [destruct (tv_of ev s)|]; reflexivity. }
+  split; [exact Hb|].
+  assert (Hd : edur = tattr (tv_of ev) attrs A_dur) by (unfold tattr; exact Ed).
+  assert (Hen : eend = tattr (tv_of ev) attrs A_end) by (unfold tattr; exact Ee).
+  rewrite <- Hd, <- Hen.
+  apply desired_end_of; [reflexivity|exact Hb|].
+  set (b := (ibegin + match tattr (tv_of ev) attrs A_begin with Some v => v | None => 0 end)%Q) in *.
+  (* implicit duration *)
+  rewrite s_atomic_k, negb_involutive, s_is_seq_par, s_mixed_k. fold par.
+  destruct (k_indefinite_in_par k && pc_par pc) eqn:Eat.
+  - (* indefinite from the start *)
+    assert (Hi1 : iend1 = None). { unfold iend1, iend0. destruct txt; [destruct (k_is_mixed k && par)|]; reflexivity. }
+    rewrite Hi1 in Eloop. destruct par eqn:Epar.
+    + pose proof (loop_par ev k dbegin preserve lang cs IHcs _ _ _ _ _ _ _ None Eloop I) as Hl.
+      rewrite par_dur_none in Hl. destruct iF; simpl in Hl; [contradiction|exact I].
+    + pose proof (loop_seq ev k dbegin preserve lang cs IHcs _ _ _ _ _ _ _ Eloop) as Hl. cbn in Hl. subst iF. exact I.
+  - destruct par eqn:Epar; cbn [negb].
+    + rewrite andb_true_r in *.
+      pose proof (loop_par ev k dbegin preserve lang cs IHcs _ _ _ _ _ _ _
+                    (if k_is_mixed k && has_text txt then None else Some 0%Q) Eloop) as Hl.
+      assert (Hrel : oq_rel iend1 (oadd dbegin (if k_is_mixed k && has_text txt then None else Some 0%Q))).
+      { unfold iend1, iend0. destruct txt; cbn [has_text]; [destruct (k_is_mixed k); cbn [andb oadd oq_rel]|rewrite andb_false_r; cbn [oadd oq_rel]]; try exact I; ring. }
+      specialize (Hl Hrel).
+      eapply oq_rel_trans; [exact Hl|]. apply oadd_compat; [exact Hb|apply oq_rel_refl].
+    + rewrite andb_false_r in *.
+      assert (Hi1 : iend1 = Some dbegin). { unfold iend1, iend0. destruct txt; [rewrite andb_false_r|]; reflexivity. }
+      rewrite Hi1 in Eloop.
+      pose proof (loop_seq ev k dbegin preserve lang cs IHcs _ _ _ _ _ _ _ Eloop 0%Q) as Hl.
+      eapply oq_rel_trans; [apply Hl; ring|]. apply oadd_compat; [exact Hb|apply oq_rel_refl].
+Qed.
